@@ -4,7 +4,9 @@
    instant of any wait, for every configuration of ConfigSet. *)
 EXTENDS RetrySender, TLC
 
-CONSTANTS Inits, Mult2s, Maxis, Rnd2s, Budgets, Tmos, Deadlines, Enableds
+CONSTANTS Inits, Mult2s, Maxis, Rnd2s, Budgets, Tmos, Deadlines, Enableds,
+          ThrLo, ThrHi,   \* delays a throttling backend asks for (below / above the back-off)
+          SlowDur         \* duration of a slow failing attempt
 
 ConfigSet == { c \in [enabled : Enableds, init : Inits, mult2 : Mult2s, maxi : Maxis, rnd2 : Rnd2s,
                       budget : Budgets, tmo : Tmos, deadline : Deadlines] :
@@ -14,10 +16,10 @@ ConfigSet == { c \in [enabled : Enableds, init : Inits, mult2 : Mult2s, maxi : M
 
 OutcomeSet == {[kind |-> "ok", thr |-> 0, dur |-> 0, sub |-> "-"],
                [kind |-> "transient", thr |-> 0, dur |-> 0, sub |-> "-"],
-               [kind |-> "transient", thr |-> 0, dur |-> 1, sub |-> "-"],
+               [kind |-> "transient", thr |-> 0, dur |-> SlowDur, sub |-> "-"],
                [kind |-> "permanent", thr |-> 0, dur |-> 0, sub |-> "-"],
-               [kind |-> "throttle", thr |-> 1, dur |-> 0, sub |-> "-"],
-               [kind |-> "throttle", thr |-> 3, dur |-> 0, sub |-> "-"],
+               [kind |-> "throttle", thr |-> ThrLo, dur |-> 0, sub |-> "-"],
+               [kind |-> "throttle", thr |-> ThrHi, dur |-> 0, sub |-> "-"],
                [kind |-> "partial", thr |-> 0, dur |-> 0, sub |-> "drop_min"],
                [kind |-> "partial", thr |-> 0, dur |-> 0, sub |-> "keep_max"],
                [kind |-> "expire", thr |-> 0, dur |-> 0, sub |-> "-"]}
